@@ -5,7 +5,7 @@
 (* Event fields: op, w (window: abs, H0, V0), a (arguments), o (outcome:   *)
 (* "ok" / "err" / "panic"), r (result, projected).                         *)
 (***************************************************************************)
-EXTENDS Neighbour, Keys, Line, Deviations
+EXTENDS Neighbour, Keys, Line, Deviations, Validation
 
 \* ---- generic helpers ------------------------------------------------------
 IsSeq(x) == x = <<>> \/ DOMAIN x = 1..Len(x)     \* used only on values known to be lists
@@ -269,6 +269,11 @@ X_Determ(e) ==
   /\ \A i \in 1..Len(e.r) : SetOfSeq(e.r[i]) = SetOfSeq(e.r[1])  \* same set every time
   /\ (e.a.dedup => \A i \in 1..Len(e.r) : DupFree(e.r[i]))      \* no ID twice
 
+\* ---- C15 ------------------------------------------------------------------
+X_Invalid(e) == Accept(FnByName(e.a.fn), e.a.cv, e.o, e.r.empty, e.r.emptyid)
+\* accepted points: longitude and altitude bit-identical, latitude cut toward zero by < 1e-10 degree (units 1e-13)
+X_PointStore(e) == Ok(e) /\ e.r.lon /\ e.r.alt /\ e.r.toward /\ 0 <= e.r.cut /\ e.r.cut < 1000
+
 \* ---- dispatch -------------------------------------------------------------
 Explains(e) ==
   /\ e.bad = ""
@@ -312,6 +317,8 @@ Explains(e) ==
       [] e.op = "Corridor"             -> X_Corridor(e)
       [] e.op = "CorridorInvalid"      -> X_CorridorInvalid(e)
       [] e.op = "Determ"               -> X_Determ(e)
+      [] e.op = "Invalid"              -> X_Invalid(e)
+      [] e.op = "PointStore"           -> X_PointStore(e)
       [] OTHER -> FALSE
 
 \* what the specification expected (diagnostics for a rejected line)
@@ -363,6 +370,8 @@ Expected(e) ==
     [] e.op = "CorridorInvalid"      -> "error"
     [] e.op = "Determ"               -> [differing |-> {e.a.labels[i] : i \in {j \in 1..Len(e.r) : SetOfSeq(e.r[j]) # SetOfSeq(e.r[1])}},
                                          duplicates |-> {e.a.labels[i] : i \in {j \in 1..Len(e.r) : ~DupFree(e.r[j])}}]
+    [] e.op = "Invalid"              -> [refused |-> Refused(FnByName(e.a.fn), e.a.cv), kind |-> FnByName(e.a.fn).kind]
+    [] e.op = "PointStore"           -> "lon/alt unchanged, 0 <= cut < 1e-10 deg toward zero"
     [] OTHER -> "no-spec-operator"
 
 \* ---- recorded deviations (known findings) -----------------------------------
